@@ -52,8 +52,10 @@ func (f *filterSpec) String() string {
 // genRedefScenario: single-input converters, no subtypes, each name bound to one type.
 func genRedefScenario(r *rng) (*scenario, *filterSpec, *filterSpec) {
 	sc := &scenario{errOwner: map[int]int{}}
-	types := []int{0, 1, 2, 3, 4, 5}
-	nameTy := map[string]int{"a": types[r.intn(6)], "b": types[r.intn(6)], "c": types[r.intn(6)]}
+	// K0–K5, and a defined slice type next to its unnamed underlying type (distinct, but assignable to one another:
+	// a filter admitting one must not admit the other)
+	types := []int{0, 1, 2, 3, 4, 5, tyL0, tyLU}
+	nameTy := map[string]int{"a": types[r.intn(len(types))], "b": types[r.intn(len(types))], "c": types[r.intn(len(types))]}
 	// one scenario in four carries subtype labels (outside C08's premise; Redefine must still return)
 	sc.Subs = r.chance(1, 4)
 	sub := func() string {
@@ -67,7 +69,7 @@ func genRedefScenario(r *rng) (*scenario, *filterSpec, *filterSpec) {
 			n := []string{"a", "b", "c"}[r.intn(3)]
 			return lab{Name: n, Ty: nameTy[n], Sub: sub()}
 		}
-		return lab{Ty: types[r.intn(6)], Sub: sub()}
+		return lab{Ty: types[r.intn(len(types))], Sub: sub()}
 	}
 	distinct := func(n int) []lab {
 		var out []lab
@@ -112,6 +114,11 @@ func genRedefScenario(r *rng) (*scenario, *filterSpec, *filterSpec) {
 			}
 			f := c.newConv(r, sc, []lab{cur}, []lab{src})
 			f.Script, f.Once = "ok", r.chance(1, 8)
+			if r.chance(1, 6) {
+				// fails the first time its body runs: the planning run never runs it, the call of the redefined
+				// function does and must report exactly this error
+				f.Script, f.HasErr = "fail@0", true
+			}
 			convIDs = append(convIDs, f.ID)
 			if r.chance(1, 4) && len(sc.Funcs) < 9 { // bidirectional pair
 				g := c.newConv(r, sc, []lab{src}, []lab{cur})
@@ -258,6 +265,12 @@ func genRedef(w *bufio.Writer, r *rng, id int) {
 		}
 	}
 	fmt.Fprintf(w, "end\n")
+	if id%3 == 0 {
+		// after everything else of this scenario (the probes rebuild the function objects)
+		defer func() {
+			fmt.Fprintf(w, "scn probe %d\nsibling %s\nbare %s\nend\n", id, siblingProbe(sc, sc.callArgs(false)), bareProbe(sc))
+		}()
+	}
 	if newFn == nil || sc.Subs {
 		return
 	}
@@ -366,36 +379,7 @@ func genRedef(w *bufio.Writer, r *rng, id int) {
 		}
 		// a sibling function built on a longer view of the very array that holds the target's default options:
 		// neither Redefine nor Call on the target may write into the spare capacity behind its defaults
-		sibling := "skip"
-		if recovered(func() {
-			common := make([]am.Arg, 0, 8)
-			common = append(common, am.Named("zzcommon", K9{ID: 1}))
-			raw0 := sc.Funcs[0].raw
-			f0, err := am.NewFunc(raw0, common...)
-			if err != nil {
-				return
-			}
-			g, err := am.NewFunc(func(in struct {
-				am.Struct
-				Zzsibling K9
-			}) int {
-				return in.Zzsibling.ID
-			}, append(common, am.Named("zzsibling", K9{ID: 77}))...)
-			if err != nil {
-				return
-			}
-			before := g.Call()
-			f0.Redefine(base...)
-			f0.Call(base...)
-			after := g.Call()
-			if before.Err() == nil && after.Err() == nil && before.Out(0) == after.Out(0) {
-				sibling = "intact"
-			} else {
-				sibling = "disturbed"
-			}
-		}) {
-			sibling = "panic"
-		}
+		sibling := siblingProbe(sc, base)
 		fmt.Fprintf(w, "scn alias %d\nalias %s\nsibling %s\nend\n", id, verdict, sibling)
 	}
 }
@@ -517,6 +501,11 @@ func genHist(w *bufio.Writer, r *rng, id int) {
 	}
 	sc.header(w, "hist", id, "")
 	fmt.Fprintln(w, sc.dumpGraph(false))
+	// now and then a wrapper is assembled over the target's own value sets (BuildFunc(f.Input(), f.Output(), cb))
+	// and called once: that must neither panic nor leave anything behind that a later use of the target can see
+	if r.chance(1, 4) {
+		fmt.Fprintf(w, "wrap %s\n", wrapProbe(sc))
+	}
 	// converters whose Go type is unique in the scenario can also be called directly
 	var direct []int
 	for _, f := range sc.Funcs[1:] {
@@ -721,4 +710,118 @@ func genRedefGen(w *bufio.Writer, r *rng, id int) {
 	var res am.Result
 	pan := recovered(func() { res = target.fn.Call(gen, am.Typed(mkValue(T, 3, -1).Interface())) })
 	fmt.Fprintf(w, "call execs=%d ok=%v panic=%v\nend\n", conv.execs-before, !pan && res.Err() == nil, pan)
+}
+
+// siblingProbe: a sibling function built on a longer view of the very array that holds the target's default
+// options; neither Redefine nor Call on the target may write into the spare capacity behind its defaults.
+func siblingProbe(sc *scenario, base []am.Arg) string {
+	sibling := "skip"
+	if recovered(func() {
+		common := make([]am.Arg, 0, 8)
+		common = append(common, am.Named("zzcommon", K9{ID: 1}))
+		raw0 := sc.Funcs[0].raw
+		f0, err := am.NewFunc(raw0, common...)
+		if err != nil {
+			return
+		}
+		g, err := am.NewFunc(func(in struct {
+			am.Struct
+			Zzsibling K9
+		}) int {
+			return in.Zzsibling.ID
+		}, append(common, am.Named("zzsibling", K9{ID: 77}))...)
+		if err != nil {
+			return
+		}
+		before := g.Call()
+		f0.Redefine(base...)
+		f0.Call(base...)
+		after := g.Call()
+		if before.Err() == nil && after.Err() == nil && before.Out(0) == after.Out(0) {
+			sibling = "intact"
+		} else {
+			sibling = "disturbed"
+		}
+	}) {
+		sibling = "panic"
+	}
+	return sibling
+}
+
+// bareProbe: calls without a single option. The outcome class of Call() must be the same before and after a
+// Redefine() without options on the same function object (fresh objects, so that nothing is memoised).
+func bareProbe(sc *scenario) string {
+	verdict := "skip"
+	if recovered(func() {
+		if sc.buildAll() != nil {
+			return
+		}
+		f := sc.Funcs[0].fn
+		class := func() string {
+			var res am.Result
+			var pan interface{}
+			func() {
+				defer func() { pan = recover() }()
+				res = f.Call()
+			}()
+			return outcomeOf(sc, res, pan)
+		}
+		before := class()
+		if sc.buildAll() != nil {
+			return
+		}
+		f = sc.Funcs[0].fn
+		f.Redefine()
+		after := class()
+		if before == after {
+			verdict = "intact"
+		} else {
+			verdict = "changed:" + before + "/" + after
+		}
+	}) {
+		verdict = "panic"
+	}
+	return verdict
+}
+
+// wrapProbe builds a function over the target's own input and output sets and calls it with one fresh value per
+// input.
+func wrapProbe(sc *scenario) string {
+	verdict := "skip"
+	if recovered(func() {
+		f := sc.Funcs[0].fn
+		w, err := am.BuildFunc(f.Input(), f.Output(), func(in, out *am.ValueSet) error { return nil })
+		if err != nil || w == nil {
+			verdict = "builderr"
+			return
+		}
+		var args []am.Arg
+		if in := f.Input(); in != nil {
+			for i, v := range in.Values() {
+				ty := tyID(v.Type)
+				if isIface(ty) {
+					impl := implementers(ty)
+					if len(impl) == 0 {
+						return
+					}
+					ty = impl[0]
+				}
+				val := mkValue(ty, 7700+i, -1).Interface()
+				if v.Name != "" {
+					args = append(args, am.NamedSubtype(v.Name, val, v.Subtype))
+				} else {
+					args = append(args, am.TypedSubtype(val, v.Subtype))
+				}
+			}
+		}
+		res := w.Call(args...)
+		if res.Err() != nil {
+			verdict = "err"
+		} else {
+			verdict = "ok"
+		}
+	}) {
+		verdict = "panic"
+	}
+	return verdict
 }
